@@ -1,26 +1,29 @@
-(* Ser/CodecCor.v -- corollaries of the round-trip theorem for the concrete
-   configurations of Ser/Cfg.v, and the computed witnesses of the refuted
-   statements. *)
+(* Ser/CodecCor.v -- the theorems of Ser/CodecRT.v, CodecSafe.v and
+   CodecLoaded.v instantiated for the two configurations of Ser/Cfg.v:
+   [cfg_today] (the repaired code, full-strength statements) and
+   [cfg_pinned] (the code as pinned: refutations by computed witnesses and the
+   statements that held outside the defect classes). *)
 From Coq Require Import Lia ZifyBool.
-From FendV Require Import Base.Prelude Ser.Generated.BuiltinNames Ser.Codec Ser.Cfg Ser.CodecRT Ser.CodecSafe Ser.NamesProofs Ser.CodecLoaded.
+From FendV Require Import Base.Prelude Ser.Generated.BuiltinNames Ser.Codec Ser.Cfg Ser.Witness
+  Ser.CodecRT Ser.CodecSafe Ser.NamesProofs Ser.CodecLoaded.
 Open Scope N_scope.
 Arguments N.add : simpl never. Arguments N.sub : simpl never. Arguments N.mul : simpl never.
 Arguments N.eqb : simpl never. Arguments N.ltb : simpl never. Arguments N.leb : simpl never.
 
-(* the two classes of values that do not survive a reload today *)
-Definition known_C12_scope_flag (v : value) : bool := has_scope_value v.
-Definition known_C12_builtin_name (v : value) : bool := negb (names_ok_value from_names v).
-Definition known_C12 (v : value) : bool := known_C12_scope_flag v || known_C12_builtin_name v.
+Definition cap_today : option N := Some prealloc_cap.
+
+(* ------------------------------------------------------------------ *)
+(* general facts *)
 
 (* a well-formed tree only mentions literals as_str can write *)
-Lemma wfc_names_ok : forall asn sz,
-  (forall v, wfc_value asn sz v = true -> names_ok_value asn v = true) /\
-  (forall e, wfc_expr asn sz e = true -> names_ok_expr asn e = true) /\
-  (forall s, wfc_scope asn sz s = true -> names_ok_scope asn s = true) /\
-  (forall o, wfc_oscope asn sz o = true -> names_ok_oscope asn o = true) /\
-  (forall it, wfc_items asn sz it = true -> names_ok_items asn it = true).
+Lemma wfc_names_ok : forall asn cap sz,
+  (forall v, wfc_value asn cap sz v = true -> names_ok_value asn v = true) /\
+  (forall e, wfc_expr asn cap sz e = true -> names_ok_expr asn e = true) /\
+  (forall s, wfc_scope asn cap sz s = true -> names_ok_scope asn s = true) /\
+  (forall o, wfc_oscope asn cap sz o = true -> names_ok_oscope asn o = true) /\
+  (forall it, wfc_items asn cap sz it = true -> names_ok_items asn it = true).
 Proof.
-  intros asn sz. apply vtree_mutind; intros;
+  intros asn cap sz. apply vtree_mutind; intros;
     cbn [wfc_value wfc_expr wfc_scope wfc_oscope wfc_items
          names_ok_value names_ok_expr names_ok_scope names_ok_oscope names_ok_items] in *;
     bsplit; auto;
@@ -29,175 +32,161 @@ Proof.
     end; auto.
 Qed.
 
-Section Cor.
-Variable sz : sizes.
-Hypothesis Hsz : sizes_okb sz = true.
-
-Lemma rt_ok_today : forall v, wfc_value as_names sz v = true -> known_C12 v = false ->
-  rt_ok_value (cfg_today sz) as_names v = true.
+(* accepting more literals keeps a tree acceptable *)
+Lemma names_ok_mono : forall l1 l2, (forall s, mem s l1 = true -> mem s l2 = true) ->
+  (forall v, names_ok_value l1 v = true -> names_ok_value l2 v = true) /\
+  (forall e, names_ok_expr l1 e = true -> names_ok_expr l2 e = true) /\
+  (forall s, names_ok_scope l1 s = true -> names_ok_scope l2 s = true) /\
+  (forall o, names_ok_oscope l1 o = true -> names_ok_oscope l2 o = true) /\
+  (forall it, names_ok_items l1 it = true -> names_ok_items l2 it = true).
 Proof.
-  intros v Hw Hk. unfold known_C12, known_C12_scope_flag, known_C12_builtin_name in Hk.
-  apply orb_false_elim in Hk. destruct Hk as [H1 H2]. apply negb_false_iff in H2.
-  unfold rt_ok_value. cbn [cfg_today c_sz c_from c_validate c_scope_inverted negb orb].
-  rewrite Hw, H2, H1. reflexivity.
+  intros l1 l2 Hsub. apply vtree_mutind; intros;
+    cbn [names_ok_value names_ok_expr names_ok_scope names_ok_oscope names_ok_items] in *;
+    bsplit; auto;
+    repeat match goal with
+    | IH : ?P = true -> ?Q = true, H : ?P = true |- _ => rewrite (IH H); clear IH
+    end; auto.
 Qed.
-
-Lemma rt_ok_fixed : forall v, wfc_value as_names sz v = true -> wfs_value v = true ->
-  rt_ok_value (cfg_fixed sz) as_names v = true.
-Proof.
-  intros v Hw Hs. unfold rt_ok_value. cbn [cfg_fixed c_sz c_from c_validate c_scope_inverted negb orb].
-  destruct (wfc_names_ok as_names sz) as [Hn _]. rewrite Hw, (Hn v Hw), Hs. reflexivity.
-Qed.
-
-Theorem roundtrip_except_known : forall v rest,
-  wfc_value as_names sz v = true -> known_C12 v = false ->
-  run (de_value_top (cfg_today sz)) (ser_value v ++ rest) = Ok (v, rest).
-Proof. intros. apply (value_roundtrip (cfg_today sz) as_names); auto using rt_ok_today. Qed.
-
-Theorem roundtrip_fixed : forall v rest,
-  wfc_value as_names sz v = true -> wfs_value v = true ->
-  run (de_value_top (cfg_fixed sz)) (ser_value v ++ rest) = Ok (v, rest).
-Proof. intros. apply (value_roundtrip (cfg_fixed sz) as_names); auto using rt_ok_fixed. Qed.
 
 Lemma forallb_impl : forall A (P Q : A -> bool) l, (forall x, P x = true -> Q x = true) -> forallb P l = true -> forallb Q l = true.
 Proof. intros A P Q l H. induction l; cbn [forallb]; auto. intros E. bsplit. rewrite H, IHl; auto. Qed.
 Lemma forallb_and : forall A (P Q : A -> bool) l, forallb P l = true -> forallb Q l = true -> forallb (fun x => P x && Q x) l = true.
 Proof. intros A P Q l. induction l; cbn [forallb]; auto. intros E1 E2. bsplit. rewrite H, H1, IHl; auto. Qed.
 
-Theorem vars_roundtrip_except_known : forall m rest,
-  wfc_vars as_names sz m = true -> forallb (fun kv => negb (known_C12 (snd kv))) m = true ->
-  run (de_vars (cfg_today sz)) (ser_vars m ++ rest) = Ok (m, rest).
+(* ------------------------------------------------------------------ *)
+(* the repaired code *)
+
+Section Today.
+Variable sz : sizes.
+
+Lemma rt_ok_today : forall v, wfc_value as_names cap_today sz v = true -> wfs_value v = true ->
+  rt_ok_value (cfg_today sz) as_names v = true.
 Proof.
-  intros m rest Hw Hk. apply (vars_roundtrip (cfg_today sz) as_names); auto.
-  unfold wfc_vars in Hw. bsplit. unfold rt_ok_vars. cbn [cfg_today c_sz].
-  rewrite H0, H1, andb_true_r, andb_true_r.
-  pose proof (forallb_and _ _ _ _ H Hk) as Hb. revert Hb. apply forallb_impl.
-  intros [k v] E. cbn [fst snd] in *. unfold wfc_entry in E. cbn [fst snd] in E. bsplit.
-  rewrite H2. cbn [andb]. apply rt_ok_today; auto. apply negb_true_iff; auto.
+  intros v Hw Hs. unfold rt_ok_value. cbn [cfg_today c_sz c_cap c_from c_validate c_scope_inverted negb orb].
+  destruct (wfc_names_ok as_names cap_today sz) as [Hn _].
+  destruct (names_ok_mono as_names from_names as_names_sub) as [Hm _].
+  fold cap_today. rewrite Hw, (Hm v (Hn v Hw)), Hs. reflexivity.
 Qed.
 
-Theorem vars_roundtrip_fixed : forall m rest,
-  wfc_vars as_names sz m = true -> wfs_vars m = true ->
-  run (de_vars (cfg_fixed sz)) (ser_vars m ++ rest) = Ok (m, rest).
+Theorem roundtrip_today : forall v rest,
+  wfc_value as_names cap_today sz v = true -> wfs_value v = true ->
+  run (de_value_top (cfg_today sz)) (ser_value v ++ rest) = Ok (v, rest).
+Proof. intros. apply (value_roundtrip (cfg_today sz) as_names); auto using rt_ok_today. Qed.
+
+Theorem vars_roundtrip_today : forall m rest,
+  wfc_vars as_names cap_today sz m = true -> wfs_vars m = true ->
+  run (de_vars (cfg_today sz)) (ser_vars m ++ rest) = Ok (m, rest).
 Proof.
-  intros m rest Hw Hs. apply (vars_roundtrip (cfg_fixed sz) as_names); auto.
-  unfold wfc_vars in Hw. bsplit. unfold rt_ok_vars. cbn [cfg_fixed c_sz].
+  intros m rest Hw Hs. apply (vars_roundtrip (cfg_today sz) as_names); auto.
+  unfold wfc_vars in Hw. bsplit. unfold rt_ok_vars. cbn [cfg_today c_sz c_cap]. fold cap_today.
   rewrite H0, H1, andb_true_r, andb_true_r. unfold wfs_vars in Hs.
   pose proof (forallb_and _ _ _ _ H Hs) as Hb. revert Hb. apply forallb_impl.
   intros [k v] E. cbn [fst snd] in *. unfold wfc_entry in E. cbn [fst snd] in E. bsplit.
-  rewrite H2. cbn [andb]. apply rt_ok_fixed; auto.
+  rewrite H2. cbn [andb]. apply rt_ok_today; auto.
 Qed.
-End Cor.
 
-(* ---- witnesses ---- *)
-Definition q_int (n : N) : bigrat := mkRat SPos (Small n) (Small 1).
-Definition c_int (n : N) : complex := mkC (RSimple (q_int n)) (RSimple (q_int 0)).
-Definition num_int (n : N) : number :=
-  mkNum [(c_int n, q_int 1)] [] true (BPlain 10) FAuto true.
+(* allocation and panics *)
+Theorem today_bounded : forall bs, prealloc_cap * max_sz sz <= isize_max ->
+  snd (de_vars (cfg_today sz) bs) <= prealloc_cap * max_sz sz /\
+  (forall s, fst (de_vars (cfg_today sz) bs) <> Panic s).
+Proof. intros bs H. apply (capped_bounded (cfg_today sz) prealloc_cap); auto. Qed.
 
-(* g in `f = \x.\y.x+y; g = f 3` *)
-Definition w_closure : value :=
-  VFn (B"y") (EBop 0 (EIdent (B"x")) (EIdent (B"y")))
-      (OSome (Scope (B"x") (ELit (VNum (num_int 3))) ONone ONone)).
-Definition w_floor : value := VBuiltin (B"floor").
+(* what a load guarantees *)
+Theorem today_loaded_wf : forall bs m r, bytes_ok bs ->
+  run (de_vars (cfg_today sz)) bs = Ok (m, r) ->
+  wfc_vars as_names cap_today sz m = true /\ wfs_vars m = true.
+Proof.
+  intros bs m r Hb E. split.
+  - apply (loaded_wfc (cfg_today sz) as_names from_names_sub bs m r Hb E).
+  - eapply (loaded_wfs (cfg_today sz)); eauto.
+Qed.
 
-Lemma w_closure_wf : wfc_value as_names sizes_x64 w_closure = true /\ wfs_value w_closure = true.
-Proof. vm_compute. split; reflexivity. Qed.
-Lemma w_closure_fails : fst (run (de_value_top (cfg_pinned sizes_x64)) (ser_value w_closure), 0) = Err EDeser.
+(* ... hence whatever was loaded can be saved and loaded again *)
+Theorem today_resave_reload : forall bs m r rest, bytes_ok bs ->
+  run (de_vars (cfg_today sz)) bs = Ok (m, r) ->
+  run (de_vars (cfg_today sz)) (ser_vars m ++ rest) = Ok (m, rest).
+Proof.
+  intros bs m r rest Hb E. destruct (today_loaded_wf bs m r Hb E) as [Hw Hs].
+  apply vars_roundtrip_today; auto.
+Qed.
+End Today.
+
+(* ------------------------------------------------------------------ *)
+(* the code as pinned: what held outside the defect classes, and witnesses *)
+
+Definition known_pinned_scope_flag (v : value) : bool := has_scope_value v.
+Definition known_pinned_builtin_name (v : value) : bool := negb (names_ok_value from_names_pinned v).
+Definition known_pinned (v : value) : bool := known_pinned_scope_flag v || known_pinned_builtin_name v.
+
+Section Pinned.
+Variable sz : sizes.
+
+Lemma rt_ok_pinned : forall v, wfc_value as_names None sz v = true -> known_pinned v = false ->
+  rt_ok_value (cfg_pinned sz) as_names v = true.
+Proof.
+  intros v Hw Hk. unfold known_pinned, known_pinned_scope_flag, known_pinned_builtin_name in Hk.
+  apply orb_false_elim in Hk. destruct Hk as [H1 H2]. apply negb_false_iff in H2.
+  unfold rt_ok_value. cbn [cfg_pinned c_sz c_cap c_from c_validate c_scope_inverted negb orb].
+  rewrite Hw, H2, H1. reflexivity.
+Qed.
+
+Theorem roundtrip_pinned_except_known : forall v rest,
+  wfc_value as_names None sz v = true -> known_pinned v = false ->
+  run (de_value_top (cfg_pinned sz)) (ser_value v ++ rest) = Ok (v, rest).
+Proof. intros. apply (value_roundtrip (cfg_pinned sz) as_names); auto using rt_ok_pinned. Qed.
+
+(* classifier of the repaired finding alloc_untrusted_len: the pinned reader
+   asked for more bytes than the largest element size times the input length *)
+Definition alloc_okb_pinned (bs : bytes) : bool :=
+  snd (de_vars (cfg_pinned sz) bs) <=? max_sz sz * len_N bs.
+
+Theorem no_panic_pinned_except_known : forall bs,
+  alloc_okb_pinned bs = true -> max_sz sz * len_N bs <= isize_max ->
+  forall s, fst (de_vars (cfg_pinned sz) bs) <> Panic s.
+Proof.
+  intros bs Ha Hl s E. apply panic_means_huge_request in E.
+  unfold alloc_okb_pinned in Ha. apply N.leb_le in Ha. lia.
+Qed.
+End Pinned.
+
+(* ---- witnesses (sizes of the x86_64 build) ---- *)
+Lemma w_closure_wf : wfc_value as_names None sizes_x64 w_closure = true /\
+  wfc_value as_names cap_today sizes_x64 w_closure = true /\ wfs_value w_closure = true.
+Proof. vm_compute. repeat split; reflexivity. Qed.
+Lemma w_closure_fails_pinned : run (de_value_top (cfg_pinned sizes_x64)) (ser_value w_closure) = Err EDeser.
 Proof. vm_compute. reflexivity. Qed.
-Lemma w_floor_wf : wfc_value as_names sizes_x64 w_floor = true /\ wfs_value w_floor = true.
-Proof. vm_compute. split; reflexivity. Qed.
-Lemma w_floor_fails : run (de_value_top (cfg_pinned sizes_x64)) (ser_value w_floor) = Err EDeser.
+Lemma w_floor_wf : wfc_value as_names None sizes_x64 w_floor = true /\
+  wfc_value as_names cap_today sizes_x64 w_floor = true /\ wfs_value w_floor = true.
+Proof. vm_compute. repeat split; reflexivity. Qed.
+Lemma w_floor_fails_pinned : run (de_value_top (cfg_pinned sizes_x64)) (ser_value w_floor) = Err EDeser.
 Proof. vm_compute. reflexivity. Qed.
 
-(* the image fend wrote for the history  f = \x.\y.x+y ; g = f 3  (hash-map
-   order of one particular run): the pinned reader fails on it after asking
-   for 7423621035766841344 bytes; the repaired reader loads all four variables *)
-Definition img_closure : bytes := [0;0;0;0;0;0;0;4;0;0;0;0;0;0;0;1;95;6;0;0;0;0;0;0;0;1;121;7;0;1;0;0;0;0;0;0;0;1;120;1;0;0;0;0;0;0;0;1;121;1;0;0;0;0;0;0;0;1;120;0;0;0;0;0;0;0;0;0;1;1;2;1;0;0;0;0;0;0;0;3;1;0;0;0;0;0;0;0;1;1;2;1;0;0;0;0;0;0;0;0;1;0;0;0;0;0;0;0;1;2;1;0;0;0;0;0;0;0;1;1;0;0;0;0;0;0;0;1;0;0;0;0;0;0;0;0;1;5;10;7;1;0;0;0;0;0;0;0;0;0;1;103;6;0;0;0;0;0;0;0;1;121;7;0;1;0;0;0;0;0;0;0;1;120;1;0;0;0;0;0;0;0;1;121;1;0;0;0;0;0;0;0;1;120;0;0;0;0;0;0;0;0;0;1;1;2;1;0;0;0;0;0;0;0;3;1;0;0;0;0;0;0;0;1;1;2;1;0;0;0;0;0;0;0;0;1;0;0;0;0;0;0;0;1;2;1;0;0;0;0;0;0;0;1;1;0;0;0;0;0;0;0;1;0;0;0;0;0;0;0;0;1;5;10;7;1;0;0;0;0;0;0;0;0;0;1;102;6;0;0;0;0;0;0;0;1;120;12;0;0;0;0;0;0;0;1;121;7;0;1;0;0;0;0;0;0;0;1;120;1;0;0;0;0;0;0;0;1;121;0;0;0;0;0;0;0;0;3;97;110;115;6;0;0;0;0;0;0;0;1;121;7;0;1;0;0;0;0;0;0;0;1;120;1;0;0;0;0;0;0;0;1;121;1;0;0;0;0;0;0;0;1;120;0;0;0;0;0;0;0;0;0;1;1;2;1;0;0;0;0;0;0;0;3;1;0;0;0;0;0;0;0;1;1;2;1;0;0;0;0;0;0;0;0;1;0;0;0;0;0;0;0;1;2;1;0;0;0;0;0;0;0;1;1;0;0;0;0;0;0;0;1;0;0;0;0;0;0;0;0;1;5;10;7;1;0;0].
-Lemma img_closure_today : de_vars (cfg_pinned sizes_x64) img_closure = (Err EDeser, 7423621035766841344).
+Lemma img_closure_pinned : de_vars (cfg_pinned sizes_x64) img_closure = (Err EDeser, 7423621035766841344).
 Proof. vm_compute. reflexivity. Qed.
-Lemma img_closure_fixed :
-  match run (de_vars (cfg_fixed sizes_x64)) img_closure with
+Lemma img_closure_today :
+  match run (de_vars (cfg_today sizes_x64)) img_closure with
   | Ok (m, []) => (length m =? 4)%nat && list_N_eqb (ser_vars m) img_closure
   | _ => false end = true.
 Proof. vm_compute. reflexivity. Qed.
 
-(* ---- C14 witnesses ---- *)
-(* one variable whose name has length field 2^63: Vec::<u8>::with_capacity
-   panics with `capacity overflow' *)
-Definition img_panic : bytes := [0;0;0;0;0;0;0;1; 128;0;0;0;0;0;0;0].
-Lemma img_panic_panics : de_vars (cfg_pinned sizes_x64) img_panic = (Panic 1, 9223372036854775808).
+Lemma img_panic_pinned : de_vars (cfg_pinned sizes_x64) img_panic = (Panic 1, 9223372036854775808).
 Proof. vm_compute. reflexivity. Qed.
-(* ... 2^40: a 16-byte input makes the reader ask for a terabyte *)
-Definition img_alloc : bytes := [0;0;0;0;0;0;0;1; 0;0;1;0;0;0;0;0].
-Lemma img_alloc_requests : de_vars (cfg_pinned sizes_x64) img_alloc = (Err EDeser, 1099511627776).
+Lemma img_alloc_pinned : de_vars (cfg_pinned sizes_x64) img_alloc = (Err EDeser, 1099511627776).
 Proof. vm_compute. reflexivity. Qed.
+Lemma img_panic_alloc_today :
+  de_vars (cfg_today sizes_x64) img_panic = (Err EDeser, 1024) /\
+  de_vars (cfg_today sizes_x64) img_alloc = (Err EDeser, 1024).
+Proof. vm_compute. split; reflexivity. Qed.
 
-Definition num_with (re_num re_den : biguint) (b : base) : number :=
-  mkNum [(mkC (RSimple (mkRat SPos re_num re_den)) (RSimple (q_int 0)), q_int 1)] [] true b FAuto true.
-Definition bad_vars : list vars :=
-  [ [(B"a", VNum (num_with (Small 5) (Small 1) (BPlain 0)))];      (* base 0: `base appears to be 0' panic *)
-    [(B"a", VNum (num_with (Small 5) (Small 1) (BPlain 1)))];      (* base 1: un-polled infinite loop *)
-    [(B"a", VNum (num_with (Small 5) (Small 1) (BPlain 200)))];    (* base 200: unwrap on None *)
-    [(B"a", VNum (num_with (Large []) (Small 1) (BPlain 10)))];    (* empty limb vector: index out of bounds *)
-    [(B"a", VNum (num_with (Small 5) (Small 0) (BPlain 10)))];     (* zero denominator *)
-    [(B"f", VFn (B"x") (EIdent []) ONone)] ].                      (* empty identifier: unwrap on None *)
-Lemma bad_vars_load_today :
+Lemma bad_vars_load_pinned :
   forallb (fun m => match run (de_vars (cfg_pinned sizes_x64)) (ser_vars m) with
                     | Ok (m', []) => negb (wfs_vars m') && list_N_eqb (ser_vars m') (ser_vars m)
                     | _ => false end) bad_vars = true.
 Proof. vm_compute. reflexivity. Qed.
-Lemma bad_vars_rejected_fixed :
-  forallb (fun m => match run (de_vars (cfg_fixed sizes_x64)) (ser_vars m) with
+Lemma bad_vars_rejected_today :
+  forallb (fun m => match run (de_vars (cfg_today sizes_x64)) (ser_vars m) with
                     | Err EDeser => true | _ => false end) bad_vars = true.
 Proof. vm_compute. reflexivity. Qed.
 
-(* ---- C14 statements for the concrete configurations ---- *)
-(* the classifier of finding C14 alloc_untrusted_len: the reader asked for
-   more bytes than the largest element size times the input length *)
-Definition alloc_okb (sz : sizes) (bs : bytes) : bool :=
-  snd (de_vars (cfg_today sz) bs) <=? max_sz sz * len_N bs.
-
-Theorem no_panic_except_known : forall sz bs,
-  alloc_okb sz bs = true -> max_sz sz * len_N bs <= isize_max ->
-  forall s, fst (de_vars (cfg_today sz) bs) <> Panic s.
-Proof.
-  intros sz bs Ha Hl s E. apply panic_means_huge_request in E.
-  unfold alloc_okb in Ha. apply N.leb_le in Ha. lia.
-Qed.
-
-Theorem fixed_bounded : forall sz bs, prealloc_cap * max_sz sz <= isize_max ->
-  snd (de_vars (cfg_fixed sz) bs) <= prealloc_cap * max_sz sz /\
-  (forall s, fst (de_vars (cfg_fixed sz) bs) <> Panic s).
-Proof. intros sz bs H. apply (capped_bounded (cfg_fixed sz) prealloc_cap); auto. Qed.
-
-Theorem fixed_loaded_wfs : forall sz bs m r,
-  run (de_vars (cfg_fixed sz)) bs = Ok (m, r) -> wfs_vars m = true.
-Proof. intros sz bs m r H. eapply (loaded_wfs (cfg_fixed sz)); eauto. Qed.
-
 Lemma x64_cap_ok : prealloc_cap * max_sz sizes_x64 <= isize_max.
 Proof. vm_compute. discriminate. Qed.
-Lemma x64_sizes_ok : sizes_okb sizes_x64 = true.
-Proof. reflexivity. Qed.
-
-(* what was loaded can be saved and loaded again: for the tree being checked
-   (outside the scope class: the reader of scope.rs is not the inverse of its
-   writer) and for the repaired reader on inputs that fit in memory *)
-Lemma from_names_sub : forall s, mem s from_names = true -> mem s as_names = true.
-Proof.
-  intros s H. apply mem_In in H. pose proof from_names_subset as F. rewrite forallb_forall in F. apply F. exact H.
-Qed.
-
-Theorem resave_reload_except_known : forall sz, sizes_okb sz = true -> forall bs m r rest,
-  bytes_ok bs -> run (de_vars (cfg_today sz)) bs = Ok (m, r) ->
-  forallb (fun kv => negb (has_scope_value (snd kv))) m = true ->
-  run (de_vars (cfg_today sz)) (ser_vars m ++ rest) = Ok (m, rest).
-Proof.
-  intros sz Hs bs m r rest Hb E Hk.
-  destruct (loaded_wfc (cfg_today sz) as_names eq_refl from_names_sub bs m r Hb E) as [Hw Hn].
-  apply vars_roundtrip_except_known; auto.
-  cbn [cfg_today c_from] in Hn.
-  pose proof (forallb_and _ _ _ _ Hk Hn) as Hb2. revert Hb2. apply forallb_impl.
-  intros [k v] H. cbn [fst snd] in *. apply andb_prop in H. destruct H as [H1 H2].
-  unfold known_C12, known_C12_scope_flag, known_C12_builtin_name. apply negb_true_iff in H1. rewrite H1, H2. reflexivity.
-Qed.
